@@ -4,7 +4,7 @@
 HERE="$(cd "$(dirname "$0")" && pwd)"
 REPO="${VERIF_REPO:-/repo}"
 PROFILE_FLAG="${VERIF_PROFILE_FLAG:---release}"
-export RULER_VERIF_DIR="${VERIF_SIM_DIR:-$HERE/sim}" CARGO_TARGET_DIR="${VERIF_TARGET:-$HERE/target}" RUSTFLAGS="--cfg ruler_verif" CARGO_NET_OFFLINE=true
+export RULER_VERIF_DIR="${VERIF_SIM_DIR:-$HERE/sim}" CARGO_TARGET_DIR="${VERIF_TARGET:-$HERE/target}" RUSTFLAGS="--cfg ruler_verif -C overflow-checks=on" CARGO_NET_OFFLINE=true
 cargo test --offline --no-run $PROFILE_FLAG --bin ruler --manifest-path "$REPO/Cargo.toml" --message-format=json 2>/dev/null \
   | python3 -c '
 import sys, json
